@@ -273,6 +273,27 @@ def with_lines() -> dict[str, frozenset[int]]:
     return _with_lines_cache
 
 
+_current_crash_point = None
+
+
+class observation:
+    """`with trace.observation():` - the harness looks at a result (serialises a source map, reads attributes). Code of
+    the tree under test that runs for that is not part of the call under observation: an armed crash point neither
+    counts nor fires there (a fault injected into the harness's own reading would be recorded as the call's result)."""
+
+    def __enter__(self):
+        self.cp = _current_crash_point
+        if self.cp is not None:
+            self.old = self.cp.paused
+            self.cp.paused = True
+        return self
+
+    def __exit__(self, *a):
+        if self.cp is not None:
+            self.cp.paused = self.old
+        return False
+
+
 class CrashPoint:
     """Counts events while fn runs and raises `exc` at the n-th one.
 
@@ -288,6 +309,7 @@ class CrashPoint:
         self.count = 0
         self.fired = False
         self.fired_at = None
+        self.paused = False
         codes = all_repo_codes()
         if kind == "assert":
             sites = _code_objects_with_sites(assert_sites())
@@ -307,6 +329,8 @@ class CrashPoint:
         w = self.withs.get(code.co_filename)
         if w is not None and line in w:
             return sys.monitoring.DISABLE
+        if self.paused:
+            return None
         self.count += 1
         if not self.fired and self.count == self.n:
             self.fired = True
@@ -317,6 +341,8 @@ class CrashPoint:
     def _ret(self, code, offset, retval):
         if code not in self.codes:
             return sys.monitoring.DISABLE
+        if self.paused:
+            return None
         self.count += 1
         if not self.fired and self.count == self.n:
             self.fired = True
@@ -325,15 +351,18 @@ class CrashPoint:
         return None
 
     def run(self, fn, *a, **kw):
+        global _current_crash_point
         mon = sys.monitoring
         mon.use_tool_id(TOOL_CRASH, "simkit-crash")
         ev = mon.events.PY_RETURN if self.kind == "return" else mon.events.LINE
+        _current_crash_point = self
         try:
             mon.register_callback(TOOL_CRASH, ev, self._ret if self.kind == "return" else self._line)
             for code in self.codes:
                 mon.set_local_events(TOOL_CRASH, code, ev)
             return fn(*a, **kw)
         finally:
+            _current_crash_point = None
             for code in self.codes:
                 mon.set_local_events(TOOL_CRASH, code, 0)
             mon.register_callback(TOOL_CRASH, ev, None)
